@@ -156,8 +156,13 @@ mod misc {
             //   runtime returns to the sequence
             // - How many times the runtime has looped around this full shuffle
             let seq_path_str = Object::get_path(seq_container.as_ref()).to_string();
-            let sequence_hash: i32 = seq_path_str.chars().map(|c| c as i32).sum();
-            let random_seed = sequence_hash + loop_index + self.get_state().story_seed;
+            // 32-bit wrapping sums, like the reference engine (a seed near i32::MAX must not overflow)
+            let sequence_hash: i32 = seq_path_str
+                .chars()
+                .fold(0i32, |acc, c| acc.wrapping_add(c as i32));
+            let random_seed = sequence_hash
+                .wrapping_add(loop_index)
+                .wrapping_add(self.get_state().story_seed);
 
             let mut rng = StdRng::seed_from_u64(random_seed as u64);
 
